@@ -84,7 +84,9 @@ func (muxer *Muxer) Close() error {
 	}
 
 	muxer.closed = true
-	muxer.recvQueue.Signal()
+	// wake the worker through the queue: a bare Signal is lost when the worker is
+	// between its closed test and cond.Wait, and it would then wait forever
+	muxer.recvQueue.Push(nil)
 	return nil
 }
 
